@@ -5,6 +5,9 @@ import ast
 from ..core import AnalysisError, unparse, where
 from ..cfg import forward, forward_worlds, _walk_no_nested, path_str
 from ..fold import Folder, UNKNOWN
+from ..normal import normalise
+from ..cfg import forward_worlds
+from ..seq import cond_edge_transfer, kill_conds_on_assign
 from ..seq import (gen_cfg, yields_of, _is_attr_chain, assigned_names,
                    rdisc_facts_transfer, enumerate_yield_paths,
                    response_class_of, cond_edge_transfer,
@@ -144,11 +147,15 @@ def check(run, repo, world):
     ys = yields_of(cfg, world, SEQ)
     nuse += check_value_discipline(run, world, SEQ, F, cfg, ys, smod)
     _check_input_value(run, world, smod, F, cfg, ys, fn)
+    _check_input_value_arith(run, smod, F, fn)
 
     # ---- autodiscover ------------------------------------------------------
     r = world.method(HLP + ".DeviceInstanceTypeMapper", "autodiscover")
     fn = r[2]
     F = HLP + ".DeviceInstanceTypeMapper.autodiscover"
+    fn = normalise(fn, world, HLP, world.cls(
+        HLP + ".DeviceInstanceTypeMapper"), primitives=(
+            "add_type", "get_type", "clear", "check_bad_rsp"), aliases=False)
     cfg = gen_cfg(fn, F)
     ys = yields_of(cfg, world, HLP)
     run.floor("autodiscover yields", len(ys), 6)
@@ -574,6 +581,242 @@ def _check_input_value(run, world, mod, F, cfg, ys, fn):
                where(mod, y.node))
 
 
+class _QL:
+    """a*q + b with q >= 0 symbolic: the resolution is 8q + r."""
+    __slots__ = ("a", "b")
+
+    def __init__(self, a, b):
+        self.a, self.b = a, b
+
+    def __eq__(self, o):
+        return isinstance(o, _QL) and (self.a, self.b) == (o.a, o.b)
+
+    def __repr__(self):
+        if self.a == 0:
+            return str(self.b)
+        return "%dq%+d" % (self.a, self.b) if self.b else "%dq" % self.a
+
+
+class _Inconclusive(Exception):
+    pass
+
+
+def _check_input_value_arith(run, mod, F, fn):
+    """Number of latch reads and the final right shift as functions of the
+    resolution R = 8q + r, for every residue r with q symbolic: the loop
+    forms `while x > 8: x -= 8` and `for _ in range(E)` have closed forms.
+    IEC 62386-103 9.7.2: ceil(R/8) bytes are read (one by QUERY INPUT VALUE,
+    the rest by QUERY INPUT VALUE LATCH), MSB first, and the 8*ceil(R/8)-R
+    repeated low bits are dropped."""
+    run.rule("R-INPUT-ARITH", "query_input_value reads ceil(R/8)-1 latch "
+             "bytes MSB first and drops (8 - R mod 8) mod 8 bits, for every "
+             "resolution R (closed form per residue class)")
+    params = [a.arg for a in fn.args.args]
+    res_name = params[2] if len(params) > 2 else "resolution"
+
+    def is_latch_yield(s):
+        for n in ast.walk(s):
+            if isinstance(n, ast.Yield) and isinstance(n.value, ast.Call) \
+                    and unparse(n.value.func).endswith(
+                        "QueryInputValueLatch"):
+                return True
+        return False
+
+    def ev(e, env):
+        if isinstance(e, ast.Constant) and isinstance(e.value, int):
+            return _QL(0, e.value)
+        if isinstance(e, ast.Name):
+            if e.id in env:
+                return env[e.id]
+            raise _Inconclusive("name %s" % e.id)
+        if isinstance(e, ast.BinOp):
+            x, y = ev(e.left, env), ev(e.right, env)
+            if isinstance(e.op, ast.Add):
+                return _QL(x.a + y.a, x.b + y.b)
+            if isinstance(e.op, ast.Sub):
+                return _QL(x.a - y.a, x.b - y.b)
+            if y.a == 0 and y.b > 0 and isinstance(e.op, ast.FloorDiv) \
+                    and x.a % y.b == 0:
+                return _QL(x.a // y.b, x.b // y.b)
+            if y.a == 0 and y.b > 0 and isinstance(e.op, ast.Mod) \
+                    and x.a % y.b == 0:
+                return _QL(0, x.b % y.b)
+            if isinstance(e.op, ast.Mult) and (x.a == 0 or y.a == 0):
+                k, z = (x.b, y) if x.a == 0 else (y.b, x)
+                return _QL(k * z.a, k * z.b)
+        if isinstance(e, ast.UnaryOp) and isinstance(e.op, ast.USub):
+            x = ev(e.operand, env)
+            return _QL(-x.a, -x.b)
+        if isinstance(e, ast.Call) and unparse(e.func) == "divmod" and len(
+                e.args) == 2:
+            x, y = ev(e.args[0], env), ev(e.args[1], env)
+            if y.a == 0 and y.b > 0 and x.a % y.b == 0:
+                return (_QL(x.a // y.b, x.b // y.b), _QL(0, x.b % y.b))
+        raise _Inconclusive("expression %s" % unparse(e))
+
+    def truth(t, env, qmin):
+        """Truth of a comparison for all q >= qmin, else inconclusive."""
+        if isinstance(t, ast.Compare) and len(t.ops) == 1:
+            x, y = ev(t.left, env), ev(t.comparators[0], env)
+            d = _QL(x.a - y.a, x.b - y.b)       # x - y
+            lo = d.a * qmin + d.b                 # value at q = qmin
+            if d.a >= 0:
+                rng = (lo, None if d.a > 0 else lo)
+            else:
+                rng = (None, lo)
+            op = type(t.ops[0])
+            tests = {ast.Gt: lambda v: v > 0, ast.GtE: lambda v: v >= 0,
+                     ast.Lt: lambda v: v < 0, ast.LtE: lambda v: v <= 0,
+                     ast.Eq: lambda v: v == 0, ast.NotEq: lambda v: v != 0}
+            if op not in tests:
+                raise _Inconclusive("test %s" % unparse(t))
+            if d.a == 0:
+                return tests[op](d.b)
+            # monotone in q: decided if the extreme already decides it
+            if d.a > 0 and op in (ast.Gt, ast.GtE) and tests[op](lo):
+                return True
+            if d.a > 0 and op in (ast.Lt, ast.LtE) and not tests[op](lo):
+                return False
+            if d.a < 0 and op in (ast.Lt, ast.LtE) and tests[op](lo):
+                return True
+            if d.a < 0 and op in (ast.Gt, ast.GtE) and not tests[op](lo):
+                return False
+            raise _Inconclusive("test %s depends on q" % unparse(t))
+        if isinstance(t, ast.Name):
+            x = ev(t, env)
+            if x.a == 0:
+                return x.b != 0
+        raise _Inconclusive("test %s" % unparse(t))
+
+    def run_block(stmts, env, st, qmin):
+        for s_ in stmts:
+            if isinstance(s_, ast.Expr) and isinstance(s_.value,
+                                                       ast.Constant):
+                continue
+            if isinstance(s_, ast.While):
+                # while X > 8: ... X -= 8 ...
+                t = s_.test
+                if not (isinstance(t, ast.Compare) and isinstance(
+                        t.ops[0], ast.Gt) and isinstance(
+                            t.left, ast.Name) and isinstance(
+                                t.comparators[0], ast.Constant) and
+                        isinstance(t.comparators[0].value, int)):
+                    raise _Inconclusive("loop test %s" % unparse(t))
+                x = t.left.id
+                c_ = t.comparators[0].value
+                decs = [n for n in s_.body if isinstance(
+                    n, ast.AugAssign) and isinstance(n.op, ast.Sub) and
+                    unparse(n.target) == x and unparse(n.value) == "8"]
+                if len(decs) != 1:
+                    raise _Inconclusive("loop does not step %s by 8" % x)
+                x0 = env[x]
+                if x0.a != 8:
+                    raise _Inconclusive("loop variable is not the resolution")
+                # iterations: ceil((X0 - c)/8) = q + ceil((b - c)/8)
+                n_it = _QL(1, -((c_ - x0.b) // 8))
+                if n_it.a * qmin + n_it.b < 0:
+                    raise _Inconclusive("iteration count not linear in q")
+                env[x] = _QL(0, x0.b - 8 * n_it.b)
+                body_effect(s_.body, st, n_it)
+                continue
+            if isinstance(s_, ast.For):
+                it = s_.iter
+                if not (isinstance(it, ast.Call) and unparse(
+                        it.func) == "range" and len(it.args) == 1):
+                    raise _Inconclusive("loop over %s" % unparse(it))
+                n_it = ev(it.args[0], env)
+                body_effect(s_.body, st, n_it)
+                continue
+            if isinstance(s_, ast.If):
+                if "check_bad_rsp" in unparse(s_.test) or unparse(
+                        s_.test).startswith("isinstance("):
+                    continue
+                if unparse(s_.test) == "%s is None" % res_name:
+                    continue        # the resolution is then queried
+                b = truth(s_.test, env, qmin)
+                run_block(s_.body if b else s_.orelse, env, st, qmin)
+                continue
+            if isinstance(s_, ast.Assign) and len(s_.targets) == 1:
+                tg = s_.targets[0]
+                if isinstance(tg, ast.Tuple) and isinstance(
+                        s_.value, ast.Call) and unparse(
+                            s_.value.func) == "divmod":
+                    a_, b_ = ev(s_.value, env)
+                    env[unparse(tg.elts[0])], env[unparse(tg.elts[1])] = \
+                        a_, b_
+                    continue
+                if isinstance(tg, ast.Name):
+                    try:
+                        env[tg.id] = ev(s_.value, env)
+                    except _Inconclusive:
+                        env.pop(tg.id, None)
+                    continue
+            if isinstance(s_, ast.AugAssign) and isinstance(
+                    s_.op, ast.RShift) and unparse(s_.target) == "value":
+                sh = ev(s_.value, env)
+                st["shift"] = _QL(st["shift"].a + sh.a, st["shift"].b + sh.b)
+                continue
+            if isinstance(s_, ast.AugAssign) and isinstance(
+                    s_.target, ast.Name):
+                try:
+                    cur = env[s_.target.id]
+                    v = ev(s_.value, env)
+                    if isinstance(s_.op, ast.Sub):
+                        env[s_.target.id] = _QL(cur.a - v.a, cur.b - v.b)
+                    elif isinstance(s_.op, ast.Add):
+                        env[s_.target.id] = _QL(cur.a + v.a, cur.b + v.b)
+                    else:
+                        env.pop(s_.target.id, None)
+                except (KeyError, _Inconclusive):
+                    env.pop(s_.target.id, None)
+                continue
+
+    def body_effect(body, st, n_it):
+        reads = sum(1 for b_ in body if is_latch_yield(b_))
+        st["reads"] = _QL(st["reads"].a + reads * n_it.a,
+                          st["reads"].b + reads * n_it.b)
+        # MSB first: value is moved up by 8 once per read, before the add
+        txt = [unparse(b_) for b_ in body]
+        shl = [i for i, t in enumerate(txt) if t in (
+            "value <<= 8", "value = value << 8", "value = value * 256",
+            "value *= 256")]
+        add = [i for i, b_ in enumerate(body) if isinstance(
+            b_, ast.AugAssign) and unparse(b_.target) == "value" and
+            isinstance(b_.op, (ast.Add, ast.BitOr))]
+        comb = [i for i, t in enumerate(txt) if t.startswith(
+            "value = value << 8 |") or t.startswith("value = (value << 8)")]
+        st["msb_first"] = st["msb_first"] and reads == 1 and (
+            (len(shl) == 1 and len(add) == 1 and shl[0] < add[0]) or
+            len(comb) == 1)
+
+    ok = True
+    why = []
+    try:
+        for r_ in range(8):
+            qmin = 1 if r_ == 0 else 0
+            env = {res_name: _QL(8, r_)}
+            st = {"reads": _QL(0, 0), "shift": _QL(0, 0), "msb_first": True}
+            run_block(fn.body, env, st, qmin)
+            want_reads = _QL(1, -1) if r_ == 0 else _QL(1, 0)
+            want_shift = _QL(0, (8 - r_) % 8)
+            if st["reads"] != want_reads or st["shift"] != want_shift or \
+                    not st["msb_first"]:
+                ok = False
+                why.append("R = 8q+%d: %r latch reads (required %r), final "
+                           "shift %r (required %r)%s" % (
+                               r_, st["reads"], want_reads, st["shift"],
+                               want_shift, "" if st["msb_first"] else
+                               ", bytes not accumulated MSB first"))
+    except _Inconclusive as e:
+        raise AnalysisError("query_input_value: the byte count / shift "
+                            "arithmetic is not in a form with a closed "
+                            "form the rule knows (%s)" % e)
+    run.ob("R-INPUT-ARITH", F + "#bytes-and-shift", ok, "; ".join(why[:3]),
+           where(mod, fn),
+           sample={"rule": "R-INPUT-ARITH", "latch_reads":
+                   "q-1 for R=8q, q for R=8q+r", "final_shift": "(8-r)%8"})
+
+
 def _check_autodiscover(run, world, mod, F, cfg, ys, fn):
     run.rule("R-DEVSEQ-QUIET", "scan bracketed by Start/StopQuiescentMode; "
              "bad answers skip; add_type only for the current address/"
@@ -621,20 +864,83 @@ def _check_autodiscover(run, world, mod, F, cfg, ys, fn):
     run.ob("R-DEVSEQ-QUIET", F + "#stop-on-exit", "quiet" not in st,
            "a normal exit is reachable with the bus still in quiescent mode",
            where(mod, fn))
-    # every check_bad_rsp T-branch is a continue
+    # a bad answer skips: path-sensitive facts.  ("ans", var, query) binds a
+    # response variable to the query that produced it; the T edge of
+    # check_bad_rsp(var) marks ("bad", query); loop heads start a new
+    # device / instance.  No command and no add_type may be reached in a
+    # world that carries a "bad" mark.
+    cet = cond_edge_transfer()
+
+    def wtr(node, st):
+        st = kill_conds_on_assign(node, st)
+        if node.kind == "for":
+            st = frozenset(f for f in st if f[0] not in ("bad", "off"))
+        y = ynode.get(node.id)
+        if y is not None and y.target:
+            st = frozenset(f for f in st if not (f[0] == "ans" and
+                                                 f[1] == y.target))
+            st = st | {("ans", y.target, _short(_q(y)))}
+        return st
+
+    def wedge(src, label, dst, st):
+        st = cet(src, label, dst, st)
+        if st is None:
+            return None
+        if src.kind == "test" and label in ("T", "F"):
+            a = src.ast
+            if isinstance(a, ast.Call) and unparse(a.func) == \
+                    "check_bad_rsp" and a.args and label == "T":
+                v = unparse(a.args[0])
+                for f in st:
+                    if f[0] == "ans" and f[1] == v:
+                        st = st | {("bad", f[2])}
+            if isinstance(a, ast.Attribute) and a.attr == "value" and \
+                    label == "F":
+                v = unparse(a.value)
+                for f in st:
+                    if f[0] == "ans" and f[1] == v:
+                        st = st | {("off", f[2])}
+        return st
+    WW = forward_worlds(cfg, wtr, wedge)
     n_chk = 0
     for n in cfg.reachable:
         if n.kind == "test" and isinstance(n.ast, ast.Call) and unparse(
                 n.ast.func) == "check_bad_rsp":
             n_chk += 1
-            ok = any(l == "T" and m.kind == "stmt" and isinstance(
-                m.ast, ast.Continue) for (l, m) in n.succ)
-            src = _nearest_yield_before(n, ys)
-            run.ob("R-DEVSEQ-QUIET", "%s#skip-on-bad<-%s" % (
-                F, src.name if src else "?"), ok,
-                "a bad answer must skip the device/instance (continue)",
-                where(mod, n))
-    run.floor("autodiscover check_bad_rsp sites", n_chk, 4)
+    run.floor("autodiscover check_bad_rsp sites", n_chk, 2)
+    sinks = [(y.node, _short(_q(y))) for y in ys
+             if _short(_q(y)) != "StopQuiescentMode"]
+    for n in cfg.reachable:
+        if n.kind == "stmt" and any(
+                isinstance(c, ast.Call) and isinstance(c.func, ast.Attribute)
+                and c.func.attr == "add_type"
+                for c in _walk_no_nested(n.ast)):
+            sinks.append((n, "add_type"))
+    for (n, what) in sinks:
+        bad = WW.worlds_with(n, lambda w: any(f[0] == "bad" for f in w))
+        run.ob("R-DEVSEQ-QUIET", "%s#skip-on-bad->%s" % (F, what), not bad,
+               "%s is reached although an answer was bad (%s): a bad answer "
+               "must skip the device / instance" % (what, sorted(
+                   f[1] for f in bad[0] if f[0] == "bad") if bad else ""),
+               where(mod, n))
+        if what in ("QueryInstanceType", "add_type"):
+            off = WW.worlds_with(n, lambda w: ("off", "QueryInstanceEnabled")
+                                 in w)
+            run.ob("R-DEVSEQ-QUIET", "%s#enabled-only->%s" % (F, what),
+                   not off, "%s is reached for an instance that answered "
+                   "'not enabled'" % what, where(mod, n))
+        if what == "add_type":
+            # an instance of type 0 is recorded like any other: reaching
+            # add_type must not require a truthy type answer
+            ws = WW.at(n)
+            tv = [f[1] for w in ws for f in w if f[0] == "ans" and
+                  f[2] == "QueryInstanceType"]
+            forced = bool(ws) and bool(tv) and all(
+                ("cond", "%s.value" % tv[0], True) in w for w in ws)
+            run.ob("R-DEVSEQ-QUIET", F + "#type-0-recorded", not forced,
+                   "add_type is only reached when the QueryInstanceType "
+                   "answer is truthy: enabled instances of type 0 are "
+                   "silently dropped from the map", where(mod, n))
     # every query answer is checked before the next yield
     for y in ys:
         if y.cls is None or response_class_of(world, y.cls) is None:
@@ -672,6 +978,17 @@ def _check_autodiscover(run, world, mod, F, cfg, ys, fn):
                                         response_class_of(world, y.cls)])
         ok_it = it is not None and src is not None and _short(_q(src)) == \
             "QueryInstanceType" and _is_attr_chain(it, [src.target, "value"])
+        if not ok_it and isinstance(it, ast.Name):
+            # a local holding the answer: every definition is the type
+            # answer's value or the None that marks "skip this instance"
+            ds = _defs(cfg, it.id)
+            tys = [y for y in ys if _short(_q(y)) == "QueryInstanceType"]
+            ok_it = bool(ds) and any(
+                any(_is_attr_chain(d_, [y.target, "value"]) for y in tys)
+                for d_ in ds) and all(
+                (isinstance(d_, ast.Constant) and d_.value is None) or any(
+                    _is_attr_chain(d_, [y.target, "value"]) for y in tys)
+                for d_ in ds)
         run.ob("R-DEVSEQ-QUIET", F + "#add_type-args",
                ok_sa and ok_in and ok_it,
                "add_type must record (current address, current instance, "
@@ -778,13 +1095,25 @@ def _fold_addresses(folder, cfg, fn, value, outer_iter):
                     return False
                 if not run_block(s.body if t else s.orelse):
                     return False
-            elif isinstance(s, ast.Assign) and len(s.targets) == 1 and \
-                    isinstance(s.targets[0], ast.Name):
-                if s.targets[0].id == "addresses":
-                    v = folder.eval(s.value, env, HLP)
-                    if v is UNKNOWN:
+            elif isinstance(s, ast.Assign) and len(s.targets) == 1:
+                t = s.targets[0]
+                v = folder.eval(s.value, env, HLP)
+                if v is UNKNOWN:
+                    return False
+                if isinstance(t, ast.Name):
+                    env[t.id] = v
+                elif isinstance(t, ast.Tuple) and all(isinstance(
+                        x, ast.Name) for x in t.elts):
+                    try:
+                        vals = list(v)
+                    except TypeError:
                         return False
-                    env["addresses"] = v
+                    if len(vals) != len(t.elts):
+                        return False
+                    for x, y in zip(t.elts, vals):
+                        env[x.id] = y
+                else:
+                    return False
             elif isinstance(s, ast.For):
                 return "stop"
         return True
@@ -799,7 +1128,9 @@ def _fold_addresses(folder, cfg, fn, value, outer_iter):
             body.append(s)
     r = run_block(body)
     if r is False:
-        return None
+        raise AnalysisError("autodiscover: the normalisation of `addresses` "
+                            "could not be folded for %r (a construct outside "
+                            "the constant folder)" % (value,))
     v = folder.eval(outer_iter, env, HLP)
     if v is UNKNOWN:
         return None
